@@ -104,7 +104,10 @@ BAD = {
     'git-binary': b'diff --git a/f b/f\nindex 1a..2b 100644\nGIT binary patch\nliteral 0\n',
     'bad-line-in-hunk': b'--- a/f\n+++ b/f\n@@ -1,2 +1,2 @@\n f0\nxf1\n+X\n',
     'is-a-directory': 'DIR',
+    # a directory whose size is 0 (every empty directory on btrfs; here: a link to one in sysfs) - not an empty patch
+    'is-a-zero-size-directory': 'SYSDIR',
 }
+ZERO_SIZE_DIR = '/sys/kernel'
 
 
 # a line that begins like a hunk header but is not one: the patch is refused, the hunk is not quietly skipped
@@ -117,7 +120,8 @@ BAD['malformed-second-hunk-header'] = b'--- a/f\n+++ b/f\n@@ -1,2 +1,2 @@\n-f0\n
 
 def case_badpatch(task):
     """a missing / unparseable / unreadable patch file at position j of the range, everything before it applies"""
-    m0, texts, prior, j, kind, threads, quiet = task
+    m0, texts, prior, j, kind, threads, quiet = task[:7]
+    mmap = len(task) > 7 and task[7]
     d = wsweep.wdir()
     root = os.path.join(d, 'ws')
     series = list(NAMES)
@@ -130,14 +134,16 @@ def case_badpatch(task):
     os.unlink(bad)
     if BAD[kind] == 'DIR':
         os.mkdir(bad)
+    elif BAD[kind] == 'SYSDIR':
+        os.symlink(ZERO_SIZE_DIR, bad)
     elif BAD[kind] is not None:
         open(bad, 'wb').write(BAD[kind])
-    args = ['-a'] + (['-q'] if quiet else []) + ['--backup', 'always']
+    args = ['-a'] + (['-q'] if quiet else []) + ['--backup', 'always'] + (['--mmap'] if mmap else [])
     before = ws.snapshot(root, meta=True, skip=())
     o = ws.run_rq(root, args, threads=threads, trace=os.path.join(d, 'trace'))
     after = ws.snapshot(root, meta=True, skip=())
     out = {'evals': 1, 'violations': [], 'outcomes': {kind: 1}, 'nontrivial': 1}
-    tags = wsweep.cls({'bad-patch-file:' + kind, 'threads>1' if threads > 1 else 'threads=1'})
+    tags = wsweep.cls({'bad-patch-file:' + kind, 'threads>1' if threads > 1 else 'threads=1'} | ({'--mmap'} if mmap else set()))
     w = lambda extra: dict({'kind': 'cli', 'files': {k: [common.b2s(v[0]), v[1]] for k, v in files.items()},
                             'patches': {n: common.b2s(texts[n] if n != series[j] else (BAD[kind] if isinstance(BAD[kind], bytes) else b'')) for n in NAMES}, 'series': series,
                             'before': [{'args': [str(prior), '-q', '--backup', 'never']}] if prior else [], 'args': args, 'threads': threads,
@@ -215,7 +221,10 @@ def run(tier, seed):
             r['sample'] = {'series': tasks[i][2], 'applied': tasks[i][3], 'goals': tasks[i][4], 'threads': tasks[i][5], 'outcomes': r['outcomes']}
         acc.add(r)
     acc.finish('state_and_goal_sweep')
-    tasks2 = [(m0, texts, prior, j, kind, threads, quiet) for prior in (0, 1, 2) for j in range(prior, 3) for kind in BAD for threads in (1, 2) for quiet in (True, False)]
+    kinds = [k for k in BAD if BAD[k] != 'SYSDIR' or (os.path.isdir(ZERO_SIZE_DIR) and os.stat(ZERO_SIZE_DIR).st_size == 0)]
+    tasks2 = [(m0, texts, prior, j, kind, threads, quiet) for prior in (0, 1, 2) for j in range(prior, 3) for kind in kinds for threads in (1, 2) for quiet in (True, False)]
+    # the other loader sees the same bad patch files
+    tasks2 += [(m0, texts, prior, j, kind, threads, True, True) for prior in (0, 1) for j in range(prior, 3) for kind in kinds for threads in (1, 2)]
     acc2 = wsweep.Acc(res)
     for i, r in enumerate(wsweep.pmap(case_badpatch, tasks2)):
         if i % 61 == 0:
